@@ -88,6 +88,7 @@ class Ctx:
         self.names = set()
         self.split_mode = None   # dict for split loop body emission
         self.try_stack = []      # (label of the handler, scope depth at the try) for unwinding edges inside try blocks
+        self.unwind_actions = [] # run on unwinding edges only, after the scopes (a delegating constructor's object is destroyed)
         self.in_handler = 0
     def emit(self, s):
         self.lines.append('  ' * self.ind + s)
@@ -1504,7 +1505,9 @@ class Translator:
             cx.ind += 1; cx.emit('g_exc = 0;'); self.exit_scopes(cx, depth); cx.emit('g_exc = 1;'); cx.emit(f'goto {label};'); cx.ind -= 1
         else:
             cx.emit('if (g_exc) { /* unwinding: the destructors run as ordinary code, then the exception continues */')
-            cx.ind += 1; cx.emit('g_exc = 0;'); self.exit_scopes(cx, 0); cx.emit('g_exc = 1;'); cx.emit(ret); cx.ind -= 1
+            cx.ind += 1; cx.emit('g_exc = 0;'); self.exit_scopes(cx, 0)
+            for ua in cx.unwind_actions: cx.emit(ua)
+            cx.emit('g_exc = 1;'); cx.emit(ret); cx.ind -= 1
         cx.emit('}')
         cx.emit('#endif')
 
@@ -2049,6 +2052,14 @@ class Translator:
                 self.enqueue(ctor)
                 a = ['self'] + self.pass_args(self.params_of(ctor), ce.get('inner', []), cx) + self.ghost_args()
                 out.append(f'{self.func_cname(ctor)}({", ".join(a)});')
+                # [except.ctor]: once the target constructor has completed, an exception leaving the body of the DELEGATING
+                # constructor invokes the object's destructor
+                if self.cfg.get('exc_edges'):
+                    try: dt = self.find_dtor(t)
+                    except Unsupported: dt = None
+                    if dt is not None:
+                        self.enqueue(dt)
+                        cx.unwind_actions.append(f'{self.func_cname(dt)}({", ".join(["self"] + self.ghost_args())});      /* delegating constructor: the object is complete, its destructor runs */')
                 return out
             if 'baseInit' in ci:
                 bt = self.ctype(ci['baseInit'].get('desugaredQualType') or ci['baseInit']['qualType'])
